@@ -17,7 +17,8 @@ COQ_RUN = "run_case"
 TABLE_CONSTRUCTS = ["mask_single_place", "mask_single_remove", "mask_multi_place", "mask_multi_remove"]
 ENUM_ALWAYS = False
 RULE = ("histories = one legacy grid (class in Single/Multi/HexSingle/HexMulti, w,h in 1..5 (a few 6x6 for the rejection-"
-        "sampling branch of move_to_empty), torus, with/without a property layer, 1..7 agents) + up to 35 calls of "
+        "sampling branch of move_to_empty), torus, with/without a property layer, 1..7 agents) + 6 stored corpus histories, "
+        "52 spelled-out corner cases, then random histories of up to 35 calls of "
         "place_agent (unplaced agent, in-grid), remove_agent, move_agent (arbitrary integer targets: in grid, one wrap away, "
         "far away, own cell, an occupied cell), swap_pos (incl. same cell, same agent, unplaced agent), move_to_empty (incl. "
         "full grids), move_agent_to_one_of (random/closest/invalid selection, empty list with every handle_empty, ties, "
@@ -192,7 +193,7 @@ def _fixed_cases():
 
 def gen_cases(rng, tier):
     cases = _fixed_cases()
-    n = 1000 if tier == "quick" else 20000
+    n = 1000 if tier == "quick" else 12000
     for i in range(n):
         cls = CLASSES[i % 4] if rng.random() < 0.7 else rng.choice(CLASSES)
         r = rng.random()
@@ -221,7 +222,8 @@ def gen_cases(rng, tier):
 
 def enumerate_cases(tier, broken=False):
     """targeted exhaustive sweep: every history of `depth` calls from a small alphabet of mutators and reads
-    on 2x2 / 2x1 grids with 2 agents, both base classes (all four when thorough), torus on/off,
+    on 2x1 (and 2x2 when thorough) grids with 2 agents, SingleGrid and MultiGrid (on 2x1 all four classes when
+    thorough), torus on/off,
     started from three placements (nothing placed / one placed / both placed)."""
     depth = 3
     shapes = [(2, 2), (2, 1)] if tier == "thorough" else [(2, 1)]
@@ -235,12 +237,14 @@ def enumerate_cases(tier, broken=False):
             alpha += [["move", a, t[0], t[1]] for t in ([0, 0], [1, 0], [w, h - 1], [-1, 0])]
         alpha += [["swap", 1, 2], ["empties"], ["move_one_of", 1, [[1, 0], [w, 0]], "closest", None]]
         starts = [[], [["place", 1, 0, 0]], [["place", 1, 0, 0], ["place", 2, 1, 0]]]
-        for cls in classes:
+        for cls in (classes if (w, h) == (2, 1) else classes[:2]):
             for torus in (False, True):
                 for st in starts:
                     # pack many depth-3 histories into one case each; the trailing probes make the views observable
                     for seq in itertools.product(alpha, repeat=depth):
-                        yield _mk(cls, w, h, torus, False, 2, st + [list(o) for o in seq] + [["mask"]])
+                        k = _mk(cls, w, h, torus, False, 2, st + [list(o) for o in seq] + [["mask"]])
+                        k["sweep"] = False      # the alphabet already holds the rejecting calls
+                        yield k
 
 
 # ------------------------------------------------------------------ implementation side
